@@ -39,6 +39,10 @@ fn any_sfc() -> (OutgoingConnectionFlowController, StreamFlowController) {
     fc.acquired_connection_flow_controller_window = v(acquired);
     fc.highest_requested_connection_flow_control_window = v(hr);
     fc.state = any_state();
+    // the STREAM_DATA_BLOCKED synchroniser may be idle or have a delivery pending
+    if kani::any() {
+        fc.stream_data_blocked_sync.request_delivery(v(msd));
+    }
     (conn, fc)
 }
 
@@ -128,7 +132,7 @@ fn vq_c03_sfc_try_acquire_connection_window() {
     kani::cover!(old.finished, "reach:finished");
 }
 
-//@ harness props=C03 tier=quick level=full timeout=180
+//@ harness props=C03,C12 tier=quick level=full timeout=180
 //@ fn StreamFlowController::finish
 //@ fn StreamFlowController::clear_blocked
 #[kani::proof]
@@ -148,8 +152,101 @@ fn vq_c03_sfc_finish_and_clear() {
         let new = abs(&fc);
         assert!(new.finished && new.msd == old.msd && new.acquired == old.acquired && new.requested == old.requested, "C03/sfc.finish/frame");
         assert!(!fc.is_blocked(), "C03/sfc.finish/not_blocked");
+        // C12: after finish() (reset or end of stream) no STREAM_DATA_BLOCKED frame may follow -- whatever
+        // blocked state the controller was in
+        {
+            use s2n_quic_core::time::timer::Provider as _;
+            use transmission::interest::Provider as _;
+            assert!(!fc.has_transmission_interest(), "C12/sfc.finish/no_stream_data_blocked_pending_after_finish");
+            assert!(!fc.is_armed(), "C12/sfc.finish/no_stream_data_blocked_timer_after_finish");
+        }
     }
     let c_new = abs_conn(&conn);
     assert!(c_new.total == c_old.total && c_new.avail == c_old.avail, "C03/sfc.finish_clear/connection_untouched");
     kani::cover!(true, "reach:end");
+}
+
+// ---- RESET_STREAM final size (C03: "the final size in a RESET_STREAM it sends obeys the same limits") ----
+// SendStream::init_reset announces final_size = acquired_connection_flow_controller_window(), i.e. all the
+// connection credit the stream has booked.  Obligations: it never exceeds what the connection handed out
+// (connection limit), it is never below the highest offset that can have been sent (min(msd, acquired)),
+// and -- from the property statement -- it never exceeds the per-stream limit.  The last one FAILS on the
+// pinned tree: try_acquire_connection_window books credit up to the highest *requested* offset even beyond
+// max_stream_data (known finding KF-C03-reset-final-size); the residual obligation excludes exactly the
+// states in which more credit is booked than the stream limit.
+
+// `StreamError::stream_reset` records `panic::Location::caller()`, an intrinsic Kani does not support; it is
+// replaced by a location constant evaluated at compile time (the location is diagnostics only).
+static VERIF_LOCATION: &core::panic::Location<'static> = core::panic::Location::caller();
+fn verif_caller<'a>() -> &'static core::panic::Location<'static> where 'a: 'a {
+    VERIF_LOCATION
+}
+
+//@ harness props=C03,C12 tier=quick level=full timeout=240
+//@ fn SendStream::init_reset
+//@ fn StreamFlowController::acquired_connection_flow_controller_window
+#[kani::proof]
+#[kani::unwind(10)] // Map::default fills 8 slots in a loop
+#[kani::stub(core::panic::Location::caller, verif_caller)]
+fn vq_c03_send_stream_reset_final_size() {
+    let conn_total: u64 = kani::any();
+    let conn_granted: u64 = kani::any();
+    kani::assume(conn_total <= MAXV && conn_granted <= conn_total);
+    let mut conn = OutgoingConnectionFlowController::new(v(conn_total));
+    let _ = conn.acquire_window(v(conn_granted));
+    let msd: u64 = kani::any();
+    let acquired: u64 = kani::any();
+    let hr: u64 = kani::any();
+    kani::assume(msd <= MAXV && acquired <= hr && hr <= MAXV && acquired <= conn_granted);
+    let mut stream = SendStream::new(conn.clone(), false, v(msd), 4096);
+    {
+        let fc = stream.data_sender.flow_controller_mut();
+        fc.acquired_connection_flow_controller_window = v(acquired);
+        fc.highest_requested_connection_flow_control_window = v(hr);
+    }
+    let code: u32 = kani::any();
+    let from_peer: bool = kani::any();
+    let source = if from_peer { ResetSource::StopSendingFrame } else { ResetSource::LocalApplication };
+    let r = stream.init_reset(source, StreamError::stream_reset(VarInt::from_u32(code).into()));
+    kani::cover!(acquired > msd, "reach:booked_beyond_stream_limit");
+    kani::cover!(acquired <= msd && acquired > 0, "reach:booked_within_stream_limit");
+    kani::cover!(from_peer, "reach:stop_sending");
+    assert!(r == InitResetResult::ResetInitiated, "C03/send_stream.init_reset/initiated_from_sending");
+    let req = stream.reset_sync.verif_requested();
+    assert!(req.is_some(), "C03/send_stream.init_reset/reset_frame_requested");
+    let final_size = req.unwrap().final_size.as_u64();
+    assert!(final_size == acquired, "C03/send_stream.init_reset/final_size_is_booked_connection_credit");
+    assert!(final_size <= conn.acquired_window().as_u64() && final_size <= conn_total, "C03/send_stream.init_reset/final_size_le_connection_limit");
+    assert!(final_size >= core::cmp::min(msd, acquired), "C12/send_stream.init_reset/final_size_ge_highest_sendable_offset");
+    assert!(final_size <= msd, "C03/send_stream.init_reset/final_size_le_stream_limit");
+    assert!(acquired > msd || final_size <= msd, "C03/send_stream.init_reset/final_size_le_stream_limit#outside-known");
+    // a second reset never changes the announced final size (C12)
+    let r2 = stream.init_reset(ResetSource::LocalApplication, StreamError::stream_reset(VarInt::from_u32(code).into()));
+    assert!(r2 == InitResetResult::ResetNotNecessary, "C12/send_stream.init_reset/idempotent");
+    assert!(stream.reset_sync.verif_requested().unwrap().final_size.as_u64() == final_size, "C12/send_stream.init_reset/final_size_never_changes");
+    assert!(stream.data_sender.state() != data_sender::State::Sending, "C12/send_stream.init_reset/data_sender_stopped");
+    kani::cover!(true, "reach:end_outside_known");
+}
+
+//@ harness props=C03 tier=quick level=full timeout=180
+//@ fn StreamFlowController::acquire_flow_control_window
+//@ fn StreamFlowController::try_acquire_connection_window
+#[kani::proof]
+#[kani::unwind(3)]
+fn vq_c03_sfc_booked_credit_vs_stream_limit() {
+    let (conn, mut fc) = any_sfc();
+    kani::assume(fc.state != StreamFlowControllerState::Finished);
+    let old = abs(&fc);
+    kani::assume(old.acquired <= old.msd); // start from a state in which the booked credit respects the stream limit
+    let end: u64 = kani::any();
+    kani::assume(end <= MAXV);
+    let _ = fc.acquire_flow_control_window(v(end));
+    let new = abs(&fc);
+    kani::cover!(new.acquired > new.msd, "reach:booked_beyond_stream_limit");
+    kani::cover!(new.acquired <= new.msd, "reach:within");
+    // strict (property): the credit booked for a stream -- its RESET_STREAM final size -- stays within the stream limit
+    assert!(new.acquired <= new.msd, "C03/sfc.acquire_flow_control_window/booked_credit_le_stream_limit");
+    // residual: only a request beyond the stream limit can book beyond it
+    assert!((end as i128) > new.msd || new.acquired <= new.msd, "C03/sfc.acquire_flow_control_window/booked_credit_le_stream_limit#outside-known");
+    let _ = conn;
 }
